@@ -26,6 +26,7 @@ fn main() {
         Some("host-style") => service::host_style(),
         Some("copy-source") => service::copy_source(),
         Some("events") => service::events(),
+        Some("xml-docs") => service::xml_docs(&args[1..]),
         Some("event-frames") => service::event_frames(),
         Some("presigned-date") => service::presigned_date(&args[1..]),
         Some("wire-stream") => service::wire_stream(&args[1..]),
